@@ -75,6 +75,17 @@ TokenScripts ==
   { << LoadOp(<<Priv(ka[1])>>), BNewOp, BSetKeyOp(ka[2], 0), CNewOp, CSetKeyOp(ka[2], 0),
        OpsOp(p1), G("t", 0), VerifyOp(SlotTok(0)), OpsOp(p2), G("t", 1), VerifyOp(SlotTok(0)), VerifyOp(SlotTok(1)), OpsOp(p1), VerifyOp(SlotTok(1)) >> :
       ka \in Det, p1 \in Providers, p2 \in Providers }
+\* a private OKP JWK whose "x" member is the public half of ANOTHER key (a stale or copied x next to d): the key
+\* is its d - both providers sign with it, produce the same token, and verify each other's with the true public key
+XEd25519b == "lncoxKIi8P0R2As4v_fnOHXkHrxUnlWmIHXO0uvBEm0"
+XEd448b == "R1qzJvKrDwYa5kZOJSFRIBBTsDkS5bdYG3TVEjmXNgv9JGqUmwOE5dyq8Wr5Mwct9JDSZTFju9mA"
+StaleX(b, x) == AsymKey(b, 1, NONE, NONE) @@ [extra |-> <<<<"x", x>>>>]
+StaleScripts ==
+  { << OpsOp(pl), LoadOp(<<sk, AsymKey(sk.base, 0, NONE, NONE)>>), BNewOp, BSetKeyOp("EdDSA", 0), CNewOp, CSetKeyOp("EdDSA", 1),
+       OpsOp(p1), G("t", 0), VerifyOp(SlotTok(0)), OpsOp(p2), G("t", 1), VerifyOp(SlotTok(0)), VerifyOp(SlotTok(1)),
+       C1(CNewOp), C1(CSetKeyOp("EdDSA", 0)), C1(VerifyOp(SlotTok(0))), OpsOp(p1), C1(VerifyOp(SlotTok(1))) >> :
+      sk \in {StaleX("ed25519a", XEd25519b), StaleX("ed448a", XEd448b)}, pl \in Providers, p1 \in Providers, p2 \in Providers }
+
 \* randomised algorithms: only cross acceptance
 RandScripts ==
   { << LoadOp(<<Priv(ka[1])>>), BNewOp, BSetKeyOp(ka[2], 0), CNewOp, CSetKeyOp(ka[2], 0),
@@ -87,7 +98,7 @@ NameOps == { OpsOp(n) : n \in Names } \cup { OpsTOp(i) : i \in 0..5 } \cup { Ops
 NameScripts == { <<a, b>> : a \in NameOps, b \in NameOps } \cup { <<a, b, c>> : a \in {OpsOp("gnutls"), OpsTOp(2)}, b \in NameOps, c \in {OpsOp("openssl"), OpsOp("zz")} }
 
 \* (families, not their union: see ISpecFam in Interp.tla)
-MCSpec == ISpecFam(<<VerdictScriptsOK, AlterScripts, TokenScripts, RandScripts, NameScripts, HistoryScripts>>)
+MCSpec == ISpecFam(<<VerdictScriptsOK, AlterScripts, TokenScripts, RandScripts, NameScripts, HistoryScripts, StaleScripts>>)
 
 \* on the specification: switching happens only on exact names / ids of compiled providers
 SwitchOnlyExact ==
